@@ -156,6 +156,25 @@ func (u *Unit) eval(st *State, e ast.Expr) Value {
 		u.errorf("%s: unsupported selector %s", u.pos(e), e.Sel.Name)
 		return Value{K: KUnit}
 	case *ast.IndexExpr:
+		if id, ok := ast.Unparen(e.X).(*ast.Ident); ok {
+			if tbl := u.prog.constTableOf(id); tbl != nil {
+				if tbl.why != "" {
+					u.errorf("%s: package-level map %s is not a read-only constant table (%s)", u.pos(e), id.Name, tbl.why)
+					return Value{K: KUnit}
+				}
+				key, ok := u.constKey(e.Index)
+				if !ok {
+					u.errorf("%s: lookup in table %s with a key that is not a constant of the instantiation", u.pos(e), id.Name)
+					return Value{K: KUnit}
+				}
+				for i, k := range tbl.keys {
+					if constant.Compare(constant.ToInt(k), token.EQL, constant.ToInt(key)) {
+						return u.eval(st, tbl.vals[i])
+					}
+				}
+				return u.zeroValue(st, tbl.valType)
+			}
+		}
 		base := u.eval(st, e.X)
 		idx := u.eval(st, e.Index)
 		if base.K != KSlice || idx.K != KInt {
